@@ -478,14 +478,14 @@ fn start_of(fs: f32, p: f32) -> u32 {
 pub fn sweep_all(ctx: &Ctx, want: &str) -> Report {
     let fs = 48000.0f32;
     let f1 = (1.5 * fs as f64 / TWO24) as f32; // increment 1
-    let shards = if ctx.tier == Tier::Small { 16 } else { 16 };
+    let shards = 16;
     let starts: Vec<u32> = (0..shards).map(|j| start_of(fs, j as f32 / shards as f32)).collect();
     let mut rep = par_shards(ctx, shards, |j| {
         let mut rep = Report::new();
         let next = starts[(j + 1) % shards];
         let full = (next.wrapping_sub(starts[j]) & M24) as u64 + 8;
         // under Miri only the neighbourhood of the shard boundary (the last shard crosses the wrap)
-        let (p0, n) = if ctx.tier == Tier::Small { ((j as f32 + 1.0) / shards as f32 - 1.0 / 131072.0, 300) } else { (j as f32 / shards as f32, full) };
+        let (p0, n) = if ctx.tier == Tier::Small { ((j as f32 + 1.0) / shards as f32 - 1.0 / 131072.0, if j % 4 == 3 { 120 } else { 0 }) } else { (j as f32 / shards as f32, full) };
         let h = History { fs, ops: vec![Op::SetFreq(f1), Op::SetPhase(p0), Op::Read(j as u8), Op::Tick(n)] };
         run_and_record(&h, want, &mut rep, j == 15);
         rep.count("lfo.sweep.ticks", n);
@@ -522,20 +522,22 @@ pub fn directed(ctx: &Ctx, want: &str) -> Report {
         let step = fs as f64 / TWO24;
         let mut ops = vec![];
         // frequencies around the increment quantum, each held for a while, without phase jumps
+        let hold = if ctx.tier == Tier::Small { 6 } else { 50 };
         for m in [0.0, 0.25, 0.99, 1.0, 1.01, 1.5, 2.0, 2.5, 1000.3] {
             ops.push(Op::SetFreq((step * m) as f32));
-            ops.push(Op::Tick(50));
+            ops.push(Op::Tick(hold));
         }
         for d in [1.0, 2.0, 3.0, 4.0, 7.0, 1.0e3] {
             ops.push(Op::SetFreq((fs as f64 / d) as f32));
-            ops.push(Op::Tick(40));
+            ops.push(Op::Tick(hold));
             ops.push(Op::Read(d as u8));
         }
         ops.push(Op::SetFreq(fs));
         ops.push(Op::Tick(20));
         // phases: dyadic grid, both signs, beyond one cycle
-        for i in 0..64 {
-            let p = i as f32 / 64.0;
+        let grid = if ctx.tier == Tier::Small { 6 } else { 64 };
+        for i in 0..grid {
+            let p = i as f32 / grid as f32;
             ops.push(Op::SetPhase(p));
             ops.push(Op::SetPhase(p + 5.0));
             ops.push(Op::SetPhase(-p));
@@ -552,7 +554,7 @@ pub fn directed(ctx: &Ctx, want: &str) -> Report {
         run_and_record(&h, want, &mut rep, fs == 100.0);
     }
     // long constant-frequency runs: the step never drifts
-    let long = ctx.budget(2_000, 1_000_000, 20_000_000);
+    let long = ctx.budget(150, 1_000_000, 20_000_000);
     for &(fs, fq) in &[(100.0f32, 0.013f32), (44100.0, 0.1), (192000.0, 7.3), (999.0, 998.9)] {
         let h = History { fs, ops: vec![Op::SetFreq(fq), Op::Tick(long)] };
         run_and_record(&h, want, &mut rep, false);
@@ -563,8 +565,8 @@ pub fn directed(ctx: &Ctx, want: &str) -> Report {
 
 /// Stage D: seeded random histories
 pub fn random(ctx: &Ctx, want: &str) -> Report {
-    let n_hist = ctx.budget(30, 20_000, 1_000_000);
-    let shards = 64usize;
+    let n_hist = ctx.budget(12, 20_000, 1_000_000);
+    let shards = if ctx.tier == Tier::Small { 1 } else { 64usize };
     par_shards(ctx, shards, |s| {
         let mut rep = Report::new();
         let mut r = Rng::derive(ctx.seed, "lfo.random", s as u64);
